@@ -206,7 +206,10 @@ struct EncRun {
     for (int seekable = 1; seekable >= 0; seekable--) {
       SimFile sf; sf.bytes = &ps.bytes; sf.seekable = seekable; if (fr) { sf.rdpol = (int)fr->i("rdpol", 0); sf.rdk = (int)fr->i("rdk", 64); sf.rdrng.reseed(fr->u("rdseed", 1)); }
       OggVorbis_File vf; ov_callbacks cb = {SimFile::cb_read, SimFile::cb_seek, SimFile::cb_close, SimFile::cb_tell};
-      int r = ov_open_callbacks(&sf, &vf, nullptr, 0, cb);
+      // an application that has sniffed the first bytes itself hands them over; the source stands behind them (seekable or not)
+      std::vector<char> initial; int ib = fr ? (int)std::min<int64_t>(fr->i("ibytes", 0), (int64_t)ps.bytes.size()) : 0;
+      if (ib > 0) { initial.assign(ps.bytes.begin(), ps.bytes.begin() + ib); sf.pos = ib; g_stats.inc("probe.conserve_open_with_initial_bytes"); }
+      int r = ov_open_callbacks(&sf, &vf, ib > 0 ? initial.data() : nullptr, ib, cb);
       const char *site = seekable ? "vorbisfile-seekable" : "vorbisfile-streaming";
       check(r == 0, site, "open-failed", fmt("ret=%d", r), facts);
       if (seekable) {
@@ -307,8 +310,9 @@ struct EncRun {
       }
     }
     for (int rep = 0; rep <= twice; rep++) {
-      if (have_vb) vorbis_block_clear(&vb);
-      if (have_vd) vorbis_dsp_clear(&vd);
+      // either order of the two clears is legitimate (vorbisfile itself clears the dsp state first)
+      if (er->i("dspfirst", 0)) { if (have_vd) vorbis_dsp_clear(&vd); if (have_vb) vorbis_block_clear(&vb); if (have_vd && have_vb) g_stats.inc("probe.encoder_cleared_dsp_state_first"); }
+      else { if (have_vb) vorbis_block_clear(&vb); if (have_vd) vorbis_dsp_clear(&vd); }
       if (have_vc) vorbis_comment_clear(&vc);
       vorbis_info_clear(&vi);
     }
@@ -357,6 +361,7 @@ struct EncGen {
       if (g.chance(0.3)) p.recs.back().set("direct", 1);
       int pol = (int)g.below(6); p.add("mux").set("pol", pol).set("k", pol == 1 ? (int64_t)g.range(1, 12) : pol == 4 ? (int64_t)g.range(1, 6) : pol == 5 ? (int64_t)g.range(200, 3000) : 4).set("serial", (int64_t)g.below(1 << 30));
       p.add("file").set("rdpol", (int64_t)g.below(5)).set("rdk", (int64_t)g.range(1, 3000)).setu("rdseed", g.below(100000));
+      if (g.chance(0.15)) p.recs.back().set("ibytes", (int64_t)(g.chance(0.4) ? 4 : g.range(1, 5000)));
     } else if (c.prop == "C14") {
       m.set("mode", "rate"); Rec &e = p.add("enc");
       static const long rates[] = {8000, 11025, 16000, 22050, 32000, 44100, 48000, 44100, 96000}; long rate = rates[g.below(9)]; int ch = g.chance(0.35) ? 1 : g.chance(0.9) ? 2 : 6;
@@ -385,6 +390,7 @@ struct EncGen {
       if (g.chance(0.25)) e.set("multi", (int64_t)g.range(1, 2));
       if (g.chance(0.2)) e.set("hdrs", (int64_t)g.range(1, 2));
       if (g.chance(0.25)) e.set("chdr", 1);
+      if (g.chance(0.4)) e.set("dspfirst", 1);
       e.set("abandon", (int64_t)g.below(5)).set("twice", (int64_t)g.below(2)).set("n", (int64_t)(ch > 8 ? g.range(0, 3000) : g.range(0, 20000))).set("poison", (int64_t)g.below(5)).setu("pseed", g.below(100000));
     }
     return p;
